@@ -69,6 +69,8 @@ class Exchange(Handler):
         """
         if not compatibility.is_string(exchange):
             raise AMQPInvalidArgument('exchange should be a string')
+        elif not isinstance(if_unused, bool):
+            raise AMQPInvalidArgument('if_unused should be a boolean')
 
         delete_frame = pamqp_exchange.Delete(exchange=exchange,
                                              if_unused=if_unused)
